@@ -1,0 +1,69 @@
+//go:build verif
+
+package signature_proposal_fsm
+
+// Contracts for the signature-proposal (invitation) actions (checked by /verif/gocv; comment-only file).
+//
+//@ spec func sgp(m *SignatureProposalFSM) *internal.SignatureConfirmation = m.payload.SignatureProposalPayload
+//@ spec func wfSigP(m *SignatureProposalFSM) bool = m != nil && m.payload != nil && wfSigQ(m.payload)
+//@ spec func sigExpired(m *SignatureProposalFSM) bool = timeBefore(sgp(m).ExpiresAt, sgp(m).UpdatedAt)
+//@ spec func sigCnt(p *internal.DumpedMachineStatePayload, w internal.ConfirmationParticipantStatus) int = cntSt(dom(sigQ(p)), vals(sigQ(p)), fieldmap(internal.SignatureProposalParticipant.Status), w)
+//@ spec func sigAny(p *internal.DumpedMachineStatePayload, w internal.ConfirmationParticipantStatus) bool = exists k int :: (k in sigQ(p)) && sigQ(p)[k].Status == w
+//@ spec func sigViewsSame(m *SignatureProposalFSM) bool = unchanged("*internal.SignatureProposalParticipant", "*internal.SignatureConfirmation", "*internal.DumpedMachineStatePayload", "map[int]*internal.SignatureProposalParticipant", "map[string]int", "map[string]ed25519.PublicKey", "[]byte")
+//@ spec func isPartReq(args []interface{}) bool = len(args) == 1 && istype(args[0], requests.SignatureProposalParticipantRequest)
+//@ spec func partReq(args []interface{}) requests.SignatureProposalParticipantRequest = args[0].(requests.SignatureProposalParticipantRequest)
+//@ spec func isInitReq(args []interface{}) bool = len(args) == 1 && istype(args[0], requests.SignatureProposalParticipantsListRequest)
+//@ spec func initReq(args []interface{}) requests.SignatureProposalParticipantsListRequest = args[0].(requests.SignatureProposalParticipantsListRequest)
+//@ spec func lateReply(m *SignatureProposalFSM, args []interface{}) bool = timeBefore(timeAdd(sigQ(m.payload)[partReq(args).ParticipantId].UpdatedAt, config.SignatureProposalConfirmationDeadline), partReq(args).CreatedAt)
+
+// a confirmation or a decline of one invited participant
+//@ func (*SignatureProposalFSM).actionProposalResponseByParticipant
+//@   safety C18
+//@   requires wfSigP(m)
+//@   ensures[C05.reject,C18.reject] err != nil ==> sigViewsSame(m)
+//@   ensures[C05.shape] response == nil && (outEvent == "" || outEvent == eventSetValidationCanceledByTimeout)
+//@   ensures[C05.late] outEvent == eventSetValidationCanceledByTimeout ==> err == nil && sigViewsSame(m) && isPartReq(args) && old(partReq(args).ParticipantId in sigQ(m.payload)) && old(lateReply(m, args))
+//@   ensures[C05.latecancels] err == nil && isPartReq(args) && old(partReq(args).ParticipantId in sigQ(m.payload)) && old(lateReply(m, args)) ==> outEvent == eventSetValidationCanceledByTimeout
+//@   ensures[C05.once] err == nil && outEvent == "" ==> isPartReq(args) && old(partReq(args).ParticipantId in sigQ(m.payload)) && !old(lateReply(m, args)) && old(sigQ(m.payload)[partReq(args).ParticipantId].Status) == internal.SigConfirmationAwaitConfirmation && ((inEvent == EventConfirmSignatureProposal && sigQ(m.payload)[partReq(args).ParticipantId].Status == internal.SigConfirmationConfirmed) || (inEvent == EventDeclineProposal && sigQ(m.payload)[partReq(args).ParticipantId].Status == internal.SigConfirmationDeclined))
+//@   ensures[C05.frame,C10.frame] err == nil ==> (forall q *internal.SignatureProposalParticipant :: q != old(sigQ(m.payload)[partReq(args).ParticipantId]) ==> q.Status == old(q.Status)) && sigQ(m.payload) == old(sigQ(m.payload)) && dom(sigQ(m.payload)) == old(dom(sigQ(m.payload))) && vals(sigQ(m.payload)) == old(vals(sigQ(m.payload))) && unchanged("*internal.DumpedMachineStatePayload", "map[string]int", "map[string]ed25519.PublicKey", "[]byte", internal.SignatureProposalParticipant.Username, internal.SignatureProposalParticipant.PubKey, internal.SignatureProposalParticipant.DkgPubKey, internal.SignatureProposalParticipant.Threshold) && sgp(m).ExpiresAt == old(sgp(m).ExpiresAt)
+
+// the validator run after every accepted reply
+//@ func (*SignatureProposalFSM).actionValidateSignatureProposal
+//@   safety C18
+//@   requires wfSigP(m) && sigQ(m.payload) != nil
+//@   ensures[C05.noerr] err == nil
+//@   ensures[C05.timeout] old(sigExpired(m)) ==> outEvent == eventSetValidationCanceledByTimeout && response == nil
+//@   ensures[C05.cancel] !old(sigExpired(m)) && old(sigAny(m.payload, internal.SigConfirmationDeclined)) ==> outEvent == eventSetValidationCanceledByParticipant && response == nil
+//@   ensures[C05.wait] !old(sigExpired(m)) && !old(sigAny(m.payload, internal.SigConfirmationDeclined)) && old(sigCnt(m.payload, internal.SigConfirmationConfirmed)) < old(len(sigQ(m.payload))) ==> outEvent == "" && response == nil
+//@   ensures[C05.advance] !old(sigExpired(m)) && !old(sigAny(m.payload, internal.SigConfirmationDeclined)) && old(sigCnt(m.payload, internal.SigConfirmationConfirmed)) == old(len(sigQ(m.payload))) ==> outEvent == eventSetProposalValidatedInternal
+//@   ensures[C05.keep] sigViewsSame(m)
+//@   loop 0 invariant isContainsDecline == (exists k int :: (k in $visited) && sigQ(m.payload)[k].Status == internal.SigConfirmationDeclined)
+//@   loop 0 invariant unconfirmedParticipants == len(sigQ(m.payload)) - cntSt($visited, vals(sigQ(m.payload)), fieldmap(internal.SignatureProposalParticipant.Status), internal.SigConfirmationConfirmed)
+//@   loop 1 invariant true
+
+// the opening proposal: one awaiting record per listed participant, ids 0..n-1 in list order
+//@ func (*SignatureProposalFSM).actionInitSignatureProposal
+//@   safety C18
+//@   requires m != nil && m.payload != nil
+//@   ensures[C05.reject,C18.reject] err != nil ==> sigViewsSame(m)
+//@   ensures[C05.init] err == nil ==> isInitReq(args) && outEvent == inEvent && sgp(m) != nil && fresh(sgp(m)) && sigQ(m.payload) != nil && len(sigQ(m.payload)) == len(initReq(args).Participants) && len(initReq(args).Participants) >= 2 && m.payload.Threshold == initReq(args).SigningThreshold && 2 <= m.payload.Threshold && m.payload.Threshold <= len(sigQ(m.payload))
+//@   ensures[C05.init.ids] err == nil ==> (forall k int :: (k in sigQ(m.payload)) <==> (0 <= k && k < len(initReq(args).Participants)))
+//@   ensures[C05.init.records] err == nil ==> (forall k int :: k in sigQ(m.payload) ==> sigQ(m.payload)[k] != nil && sigQ(m.payload)[k].Status == internal.SigConfirmationAwaitConfirmation && sigQ(m.payload)[k].Threshold == initReq(args).SigningThreshold && sigQ(m.payload)[k].Username == initReq(args).Participants[k].Username && sigQ(m.payload)[k].PubKey == initReq(args).Participants[k].PubKey && sigQ(m.payload)[k].DkgPubKey == initReq(args).Participants[k].DkgPubKey)
+//@   ensures[C09.registry] err == nil ==> m.payload.PubKeys != nil && m.payload.IDs != nil && (forall k int :: 0 <= k && k < len(initReq(args).Participants) ==> (initReq(args).Participants[k].Username in m.payload.PubKeys) && (initReq(args).Participants[k].Username in m.payload.IDs))
+//@   ensures[C05.keep] m.payload.DKGProposalPayload == old(m.payload.DKGProposalPayload) && m.payload.SigningProposalPayload == old(m.payload.SigningProposalPayload) && m.payload.DkgId == old(m.payload.DkgId) && unchanged("[]byte")
+//@   loop 0 invariant m.payload == old(m.payload) && sgp(m) != nil && fresh(sgp(m)) && allocated(sgp(m)) && sigQ(m.payload) != nil && fresh(sigQ(m.payload)) && allocated(sigQ(m.payload))
+//@   loop 0 invariant len(sigQ(m.payload)) == $i + 1
+//@   loop 0 invariant forall k int :: (k in sigQ(m.payload)) <==> (0 <= k && k <= $i)
+//@   loop 0 invariant forall k int :: k in sigQ(m.payload) ==> sigQ(m.payload)[k] != nil && fresh(sigQ(m.payload)[k]) && allocated(sigQ(m.payload)[k]) && sigQ(m.payload)[k].Status == internal.SigConfirmationAwaitConfirmation && sigQ(m.payload)[k].Threshold == initReq(args).SigningThreshold && sigQ(m.payload)[k].Username == initReq(args).Participants[k].Username && sigQ(m.payload)[k].PubKey == initReq(args).Participants[k].PubKey && sigQ(m.payload)[k].DkgPubKey == initReq(args).Participants[k].DkgPubKey
+//@   loop 0 invariant forall a int, b int :: (a in sigQ(m.payload)) && (b in sigQ(m.payload)) && a != b ==> sigQ(m.payload)[a] != sigQ(m.payload)[b]
+//@   loop 0 invariant forall k int :: 0 <= k && k < len(initReq(args).Participants) ==> initReq(args).Participants[k] != nil
+//@   loop 0 invariant $i >= 0 ==> m.payload.PubKeys != nil && m.payload.IDs != nil
+//@   loop 0 invariant forall k int :: 0 <= k && k <= $i ==> (initReq(args).Participants[k].Username in m.payload.PubKeys) && (initReq(args).Participants[k].Username in m.payload.IDs)
+//@   loop 0 invariant m.payload.DKGProposalPayload == old(m.payload.DKGProposalPayload) && m.payload.SigningProposalPayload == old(m.payload.SigningProposalPayload) && m.payload.DkgId == old(m.payload.DkgId) && m.payload.Threshold == old(m.payload.Threshold) && unchanged("[]byte", "[]*requests.SignatureProposalParticipantsEntry", "*requests.SignatureProposalParticipantsEntry")
+//@   loop 0 invariant forall q *internal.SignatureProposalParticipant :: q.Status == old(q.Status) && q.Username == old(q.Username)
+//@   loop 1 invariant m.payload == old(m.payload) && sgp(m) != nil && fresh(sgp(m)) && sigQ(m.payload) != nil && len(sigQ(m.payload)) == len(initReq(args).Participants) && m.payload.Threshold == initReq(args).SigningThreshold
+//@   loop 1 invariant forall k int :: (k in sigQ(m.payload)) <==> (0 <= k && k < len(initReq(args).Participants))
+//@   loop 1 invariant forall k int :: k in sigQ(m.payload) ==> sigQ(m.payload)[k] != nil && sigQ(m.payload)[k].Status == internal.SigConfirmationAwaitConfirmation && sigQ(m.payload)[k].Threshold == initReq(args).SigningThreshold && sigQ(m.payload)[k].Username == initReq(args).Participants[k].Username && sigQ(m.payload)[k].PubKey == initReq(args).Participants[k].PubKey && sigQ(m.payload)[k].DkgPubKey == initReq(args).Participants[k].DkgPubKey
+//@   loop 1 invariant m.payload.PubKeys != nil && m.payload.IDs != nil && (forall k int :: 0 <= k && k < len(initReq(args).Participants) ==> (initReq(args).Participants[k].Username in m.payload.PubKeys) && (initReq(args).Participants[k].Username in m.payload.IDs))
+//@   loop 1 invariant m.payload.DKGProposalPayload == old(m.payload.DKGProposalPayload) && m.payload.SigningProposalPayload == old(m.payload.SigningProposalPayload) && m.payload.DkgId == old(m.payload.DkgId) && unchanged("[]byte", "[]*requests.SignatureProposalParticipantsEntry", "*requests.SignatureProposalParticipantsEntry")
+//@   loop 1 invariant forall q *internal.SignatureProposalParticipant :: q.Status == old(q.Status) && q.Username == old(q.Username)
